@@ -29,6 +29,7 @@ ASSUMPTIONS = ["documented fixed-size windows are excluded: deques with a maxlen
                "'refused because the peer is already connected' cannot be reached sequentially (the dial is guarded "
                "earlier); it is exercised by C14's race scenarios instead"]
 TIMEOUT = {"quick": 900, "thorough": 3600}
+SCTP_CLONES = {"quick": ['inbound_req_basic', 'conn_closed_by_node', 'connect_refused', 'cea_rejected'], "thorough": ['inbound_req_basic', 'conn_closed_by_node', 'connect_refused', 'cea_rejected', 'outbound_req', 'dwr_from_node', 'ce_timeout']}
 
 KINDS = ["inbound_req_basic", "inbound_req_threading", "inbound_req_threading_none", "outbound_req", "dwr_from_peer",
          "dwr_from_node", "rejected_requests", "conn_closed_by_peer", "conn_closed_by_node", "connect_refused",
